@@ -52,6 +52,8 @@ inline char const *name(int k)
 struct State
 {
   bool in_sut = false; // true only while code under test runs
+  bool alloc_off = false; // harness switch: allocations are neither fault sites nor tagged (a
+                          // property that injects allocation failures into some scenarios only)
   long count[KINDS] = {};
   long target[KINDS] = {};
   long param[KINDS] = {}; // optional second number of the annotation (kind:k:param)
